@@ -81,7 +81,7 @@ def guard_rule(ctx):
     for f in tc.fns:
         if not f.body or "proc_gen" not in f.module or "tag" not in f.module:
             continue
-        toks = es.linearize(f.body)
+        toks = es.linearize(f.body, top=True)
         k = 0
         for stmt, in_map in statements(toks):
             tt = top_tokens(stmt)
@@ -133,7 +133,7 @@ def guard_rule(ctx):
     # F(...) passes the list's update path tree
     ef = [f for f in tc.fns if f.base == "Element" and f.name == "to_proc_gen" and f.body]
     if ef:
-        toks = es.linearize(ef[0].body)
+        toks = es.linearize(ef[0].body, top=True)
         raw = [s for s, m in statements(toks) if top_tokens(s) and top_tokens(s)[0][0] == "lit" and top_tokens(s)[0][1].startswith("F(")]
         # the tree argument is written unconditionally: the call token stands at the top level of the statement, not inside an if/match
         def uncond(ts):
